@@ -1,8 +1,10 @@
 /-! Model of `invoke.executor.Executor` (`normalize`, `expand_calls`, `dedupe`, `execute`) and of the
     equality it rests on (`invoke.tasks.Call.__eq__`, `Task.__eq__`).
 
-    Acyclic pre/post graphs are unfolded into finite trees: a `TaskT` carries its identity `id`, its
-    *equality class* `cls` (what `Task.__eq__` compares: the name and the code object of the body - two
+    Acyclic pre/post graphs are unfolded into finite trees: a `TaskT` carries its identity `id` (one per
+    `Task` OBJECT), its *dictionary key* `key` (what `Task.__hash__` and `Task.__eq__` together identify: the
+    name and the very body function object - two `Task` objects wrapping one function under one name share
+    it, even with different pre/post lists), its *equality class* `cls` (what `Task.__eq__` compares: the name and the code object of the body - two
     distinct task objects made by one factory function have the same class) and its pre/post lists,
     whose members are calls `(task, arguments)`.  A plain task reference in a pre/post list is the call
     with no arguments (`expand_calls` turns it into `Call(task)`), `call(t, *a, **kw)` carries `(a, kw)`.
@@ -28,30 +30,32 @@ structure CArgs where
 def noArgs : CArgs := ⟨[], []⟩
 
 inductive TaskT where
-  | mk (id : Nat) (cls : Nat) (pre post : List (TaskT × CArgs))
+  | mk (id : Nat) (key : Nat) (cls : Nat) (pre post : List (TaskT × CArgs))
 
 abbrev CallT := TaskT × CArgs
 
-def TaskT.id : TaskT → Nat | .mk i _ _ _ => i
-def TaskT.cls : TaskT → Nat | .mk _ c _ _ => c
-def TaskT.pre : TaskT → List CallT | .mk _ _ p _ => p
-def TaskT.post : TaskT → List CallT | .mk _ _ _ p => p
+def TaskT.id : TaskT → Nat | .mk i _ _ _ _ => i
+def TaskT.key : TaskT → Nat | .mk _ k _ _ _ => k
+def TaskT.cls : TaskT → Nat | .mk _ _ c _ _ => c
+def TaskT.pre : TaskT → List CallT | .mk _ _ _ p _ => p
+def TaskT.post : TaskT → List CallT | .mk _ _ _ _ p => p
 
 /-- one invocation of a task body: which task, with which literal arguments -/
 structure Occ where
   id : Nat
+  key : Nat
   cls : Nat
   args : CArgs
   deriving DecidableEq, Repr
 
-def occ (c : CallT) : Occ := ⟨c.1.id, c.1.cls, c.2⟩
+def occ (c : CallT) : Occ := ⟨c.1.id, c.1.key, c.1.cls, c.2⟩
 
 /-! ### `expand_calls` -/
 
 mutual
 /-- one call: its task's pre-tasks (recursively), the call itself, its task's post-tasks -/
 def expandCall : TaskT → CArgs → List Occ
-  | .mk id cls pre post, a => expand pre ++ ⟨id, cls, a⟩ :: expand post
+  | .mk id key cls pre post, a => expand pre ++ ⟨id, key, cls, a⟩ :: expand post
 /-- `Executor.expand_calls` -/
 def expand : List CallT → List Occ
   | [] => []
@@ -121,13 +125,13 @@ def lookupKV (k : Nat) : List (Nat × Nat) → Option Nat
   | [] => none
   | (k', v) :: r => if k' = k then some v else lookupKV k r
 
-/-- `results[call.task] = result` for each executed call; the result of the `i`-th execution is
+/-- `results[call.task] = result` for each executed call (a dict keyed by `Task`: `key`); the result of the `i`-th execution is
     represented by `i` (the bodies return pairwise different values) -/
 def runResults (i : Nat) (acc : List (Nat × Nat)) : List Occ → List (Nat × Nat)
   | [] => acc
-  | o :: os => runResults (i + 1) (insertKV o.id i acc) os
+  | o :: os => runResults (i + 1) (insertKV o.key i acc) os
 
-/-- `Executor.execute`: the run log and the returned mapping (task identity ↦ index of the execution
+/-- `Executor.execute`: the run log and the returned mapping (task dictionary key ↦ index of the execution
     whose return value is stored) -/
 def execute (dd : Bool) (dflt : Option TaskT) (req : List (TaskT × KW)) : List Occ × List (Nat × Nat) :=
   (runLog dd dflt req, runResults 0 [] (runLog dd dflt req))
